@@ -168,6 +168,30 @@ def check_value(tag, dt, v, remote_var, local_var, local_node, index, sub, D):
         bad("local-readback", f"{rc.NAMES[dt]} wrote {v!r}, local side reads {loc!r}")
 
 
+def final_sweep(tag, remote, local, last, D):
+    """Every entry still holds the value written to it last - also after later writes to
+    other entries (e.g. other members of the same record)."""
+    for (index, sub), (e, path, v) in last.items():
+        dt = e[5]
+        try:
+            want = rc.encode(dt, v)
+            stored = local.data_store.get(index, {}).get(sub)
+            if stored is None or bytes(stored) != want:
+                D.append(Discrepancy("C03/final/stored-bytes",
+                                     f"{tag}: {index:04x}:{sub:02x} {rc.NAMES[dt]} last written {v!r}: local node "
+                                     f"holds {bytes(stored).hex() if stored is not None else None} at the end"))
+                return
+            back = get_var(remote.sdo, e[:5], path).raw
+            if not _same(dt, back, v):
+                D.append(Discrepancy("C03/final/remote-readback",
+                                     f"{tag}: {index:04x}:{sub:02x} {rc.NAMES[dt]} last written {v!r}, reads "
+                                     f"{back!r} at the end"))
+                return
+        except Exception as ex:
+            D.append(Discrepancy("C03/final/raises", f"{tag}: {index:04x}:{sub:02x}: {type(ex).__name__}: {ex}"))
+            return
+
+
 def _same(dt, a, b):
     if dt in rc.REALS:
         return isinstance(a, float) and rc.float_bits_equal(a, float(b))
@@ -224,6 +248,7 @@ def run_case(case) -> Outcome:
     def work(t):
         remote, local = pairs[t]
         local_D = []
+        last = {}
         for k, op in enumerate(threads[t]["ops"]):
             e = ent[op["e"] % len(ent)]
             index, sub, name, pname, top, dt = e
@@ -232,11 +257,14 @@ def run_case(case) -> Outcome:
                 rv = get_var(remote.sdo, e[:5], op["path"])
                 lv = get_var(local.sdo, e[:5], op["path"])
                 check_value(tag, dt, op["v"], rv, lv, local, index, sub, local_D)
+                last[(index, sub)] = (e, op["path"], op["v"])
             except Exception as ex:
                 local_D.append(Discrepancy("C03/raises", f"{tag}: {rc.NAMES[dt]} {op['v']!r}: "
                                                          f"{type(ex).__name__}: {ex}"))
             if local_D:
                 break
+        if not local_D:
+            final_sweep(f"mode {mode} thread {t} node {threads[t]['node']}", remote, local, last, local_D)
         with lock:
             D.extend(local_D)
 
@@ -343,6 +371,7 @@ def _run_virtual(case, ent, nontrivial):
         def work(t):
             remote, local = pairs[t]
             local_D = []
+            last = {}
             for k, op in enumerate(case["threads"][t]["ops"]):
                 e = ent[op["e"] % len(ent)]
                 index, sub, name, pname, top, dt = e
@@ -350,10 +379,13 @@ def _run_virtual(case, ent, nontrivial):
                 try:
                     check_value(tag, dt, op["v"], get_var(remote.sdo, e[:5], op["path"]),
                                 get_var(local.sdo, e[:5], op["path"]), local, index, sub, local_D)
+                    last[(index, sub)] = (e, op["path"], op["v"])
                 except Exception as ex:
                     local_D.append(Discrepancy("C03/raises", f"{tag}: {type(ex).__name__}: {ex}"))
                 if local_D:
                     break
+            if not local_D:
+                final_sweep(f"mode virtual thread {t}", remote, local, last, local_D)
             with lock:
                 D.extend(local_D)
 
@@ -498,6 +530,24 @@ def enum_cases(thorough):
                     bytes(200), bytes([255] * 199)]
         for p in paths:
             yield {"od": od, "mode": "inline", "threads": [{"node": 7, "ops": [{"e": e, "path": p, "v": v} for v in vals]}]}
+    # several members of one record / several objects written one after the other, then re-read
+    rec = [i for i, en in enumerate(ent) if not en[4]]
+    for a in range(0, len(rec) - 3, 3):
+        ops = []
+        for i in rec[a:a + 4]:
+            dt = ent[i][5]
+            v = {rc.BOOLEAN: True}.get(dt)
+            if v is None:
+                if dt in rc.INTEGERS:
+                    v = rc.int_range(dt)[1] - i
+                elif dt in rc.REALS:
+                    v = 1.5 + i
+                elif dt in (rc.VISIBLE_STRING, rc.UNICODE_STRING):
+                    v = f"member {i}"
+                else:
+                    v = bytes([i]) * 9
+            ops.append({"e": i, "path": ["sub", "dotted", "member", "name"][i % 4], "v": v})
+        yield {"od": od, "mode": "inline", "threads": [{"node": 8, "ops": ops}]}
     # all values of the 8- and 16-bit types
     for dt in (rc.INTEGER8, rc.UNSIGNED8, rc.INTEGER16, rc.UNSIGNED16):
         e = [i for i, en in enumerate(ent) if en[5] == dt][0]
